@@ -130,6 +130,10 @@ def _check_matching(rep, rng, counters, which):
         d1, d2 = _rand_dgm(rng, rng.randint(0, 4)), _rand_dgm(rng, rng.randint(1, 4))
         if rng.random() < 0.5:
             d1, d2 = d2, d1
+        if rng.random() < 0.4:
+            d1, d2 = np.round(d1 * 2).astype(int), np.round(d2 * 2).astype(int)       # integer-typed diagrams are legitimate inputs
+            d1[:, 1] += (d1[:, 1] <= d1[:, 0]) if d1.size else 0
+            d2[:, 1] += (d2[:, 1] <= d2[:, 0]) if d2.size else 0
         with warnings.catch_warnings():
             warnings.simplefilter("ignore")
             dval, m = dist(d1, d2, matching=True)
@@ -215,6 +219,9 @@ def _check_landscape_plots(rep, rng, counters):
             rep.violation("plot_landscape_simple (exact): %s" % bad, "landscape-plot:exact", {"input": {"dgm": d.tolist()}})
         plt2, fig2, b0, b1, ob = _fresh_axes(False)
         A = PersLandscapeApprox(dgms=[d], start=0.0, stop=10.0, num_steps=21, hom_deg=0)
+        if np.asarray(A.values).dtype.kind not in "fiu":
+            plt.close("all")
+            return            # the 'empty' sentinel of the class (known finding of C08): nothing to plot
         plot_landscape_simple(A, ax=b0)
         counters[0] += 1
         lines = b0.get_lines()
